@@ -244,14 +244,35 @@ def h_roundtrip_sky(kind, inc, m):
         w1, h1 = m.pos('w1'), m.pos('h1')
         Q = lambda v: u.Quantity(v, u.arcsec, dtype=object if m.sym else float)
         reg = cls(c, Q(w1), Q(w1 + m.pos('dw')), Q(h1), Q(h1 + m.pos('dh')), angle=m.angle('theta', 'deg'), meta=meta, visual=vis)
+    elif kind == 'point':
+        reg = R.PointSkyRegion(c, meta=meta, visual=vis)
+    elif kind == 'line':
+        reg = R.LineSkyRegion(c, w.sky_at(m.real('ex'), m.real('ey')), meta=meta, visual=vis)
+    elif kind == 'text':
+        from regions import RegionVisual
+        rot0 = m.real('textrot')
+        vis = RegionVisual({'color': 'red', 'rotation': rot0})
+        reg = R.TextSkyRegion(c, 'hello', meta=meta, visual=vis)
     else:
         raise ValueError(kind)
     pix = reg.to_pixel(w)
     back = pix.to_sky(w)
     m.require('sky -> pixel -> sky returns the same class', type(back) is type(reg))
+    if kind == 'text':
+        # the text rotation is re-expressed relative to the pixel axes and back: the sky region that was converted keeps its
+        # own value, the round trip restores it, and converting the same object again gives the same pixel rotation
+        m.require('text rotation is restored by sky -> pixel -> sky', chk.Eq(back.visual['rotation'], rot0))
+        m.require('the converted sky region still carries its own rotation', chk.Eq(reg.visual['rotation'], rot0))
+        pix2 = reg.to_pixel(w)
+        m.require('converting the same sky text region twice gives the same pixel rotation',
+                  chk.Eq(pix2.visual['rotation'], pix.visual['rotation']))
+        m.require('text and colour are kept', back.text == 'hello' and pix.text == 'hello' and back.visual['color'] == 'red'
+                  and set(back.visual) == {'color', 'rotation'} and dict(back.meta) == dict(reg.meta) and dict(pix.meta) == dict(reg.meta))
     for p in reg._params:
         a, b = getattr(reg, p), getattr(back, p)
-        if isinstance(a, u.Quantity):
+        if isinstance(a, str):
+            m.require(f'{p} unchanged', a == b)
+        elif isinstance(a, u.Quantity):
             va, vb = a.to_value(u.arcsec if p != 'angle' else u.deg), b.to_value(u.arcsec if p != 'angle' else u.deg)
             va = va[()] if isinstance(va, np.ndarray) else va
             vb = vb[()] if isinstance(vb, np.ndarray) else vb
@@ -260,8 +281,9 @@ def h_roundtrip_sky(kind, inc, m):
             xa, ya = w.world_to_pixel(a)
             xb, yb = w.world_to_pixel(b)
             m.require(f'{p} is restored by the round trip', And(chk.Eq(xa, xb), chk.Eq(ya, yb)))
-    m.require('meta and visual survive (copies)', dict(back.meta) == dict(reg.meta) and dict(back.visual) == dict(reg.visual)
-              and back.meta is not reg.meta and dict(pix.meta) == dict(reg.meta))
+    if kind != 'text':
+        m.require('meta and visual survive (copies)', dict(back.meta) == dict(reg.meta) and dict(back.visual) == dict(reg.visual)
+                  and back.meta is not reg.meta and dict(pix.meta) == dict(reg.meta))
 
 
 def harnesses(tier):
@@ -280,7 +302,7 @@ def harnesses(tier):
     hs.append(('real-wcs/sky-pixel-sky (executed)', h_real_wcs_roundtrip_executed))
     for k in ('circle', 'ellipse'):
         hs.append((f'sky-contains/{k}/history', P(h_sky_contains_history, k)))
-    for k in ('circle', 'ellipse', 'rectangle', 'annulus-circle', 'annulus-ellipse', 'annulus-rectangle'):
+    for k in ('circle', 'ellipse', 'rectangle', 'annulus-circle', 'annulus-ellipse', 'annulus-rectangle', 'point', 'line', 'text'):
         for iname, inc in INCS[:2]:
             hs.append((f'sky-pix-sky/{k}/include={iname}', P(h_roundtrip_sky, k, inc)))
     return hs
